@@ -15,7 +15,7 @@ CHECKS = {
     "C01": (
         "histmc", "model_checking",
         "explicit-state BFS over operation histories on the real TinyFlux objects, canonical-state de-duplication, reference-model oracle at every state",
-        "All histories over a colliding operation alphabet (<=N stored points, depth<=D, run to closure where reachable) on {CSV,memory}x{auto_index on,off}; at every distinct state every query of a 200+/800+ term vocabulary x measurement filter is answered by search/count/contains/get/select on the real object and compared with an independent reference evaluation over the state's own contents.",
+        "All histories over a colliding operation alphabet (<=N stored points, depth<=D; thorough tier also to the fixpoint within 2 stored points = histories of any length) on {CSV,memory}x{auto_index on,off}; at every distinct state every query of a 200+/800+ term vocabulary x measurement filter is answered by search/count/contains/get/select on the real object and compared with an independent reference evaluation over the state's own contents.",
         E1NOTE, "4/C01",
     ),
     "C02": (
@@ -45,7 +45,7 @@ CHECKS = {
     "C06": (
         "histmc", "model_checking",
         "explicit-state BFS over histories incl. raising operations; at every state with a valid index all index answers compared with a freshly built index and with a force-rebuilt replica",
-        "Whenever the database reports its index valid, every answer the Index can give (search items + exactness over the vocabulary, measurements, tag/field keys/values, timestamps, len, empty, latest_time, every measurement argument) equals that of Index().build(stored contents); count/search equal a replica after invalidate()+reindex(); validity transition invariants (in-order insert keeps valid, reads leave valid). Closure is reported when reached.",
+        "Whenever the database reports its index valid, every answer the Index can give (search items + exactness over the vocabulary, measurements, tag/field keys/values, timestamps, len, empty, latest_time, every measurement argument) equals that of Index().build(stored contents); count/search equal a replica after invalidate()+reindex(); validity transition invariants (in-order insert keeps valid, reads leave valid). The quick tier includes one run to the fixpoint (memory, auto_index, <=2 stored points: every history of any length), the thorough tier four.",
         E1NOTE, "4/C06",
     ),
     "C07": (
